@@ -144,11 +144,25 @@ def restate(rng, stmt, faults):
                 dirs.add("ub")
         if m > 1 and "two" not in dirs and len(dirs) <= 1:
             opts.append(("regroup_lin", j))
-    if not opts:
-        return None
+    opts.append("x0_form")
+    if len(lin) + len(nl) >= 1:
+        opts.append("constraints_container")
+    if stmt.get("options") in (None, {}):
+        opts.append("options_none_vs_empty")
     what = rng.pick(opts)
     s = copy.deepcopy(stmt)
     f2 = copy.deepcopy(list(faults))
+    if what == "x0_form":
+        s["x0_form"] = rng.pick([f for f in ("list", "tuple", "ndarray") if f != stmt.get("x0_form", "list")])
+        return s, f2, "x0_form"
+    if what == "constraints_container":
+        cur = stmt.get("constraints_form", "list")
+        forms = ["list", "tuple"] + (["single"] if len(lin) + len(nl) == 1 else [])
+        s["constraints_form"] = rng.pick([f for f in forms if f != cur])
+        return s, f2, "constraints_container"
+    if what == "options_none_vs_empty":
+        s["options"] = {} if stmt.get("options") is None else None
+        return s, f2, "options_none_vs_empty"
     if what == "bounds_form":
         forms = [f for f in ("Bounds", "array", "list") if f != s["bounds"].get("form", "Bounds")]
         s["bounds"]["form"] = rng.pick(forms)
